@@ -375,6 +375,13 @@ func (c *UConn) handshakeContext(ctx context.Context) (ret error) {
 	if c.isClient {
 		err := c.BuildHandshakeState()
 		if err != nil {
+			if c.quic != nil {
+				// UQUICConn.Start, HandleData and Close block until these
+				// channels are closed: report the failure instead of hanging.
+				c.handshakeErr = err
+				close(c.quic.blockedc)
+				close(c.quic.signalc)
+			}
 			return err
 		}
 	}
